@@ -241,7 +241,6 @@ func setAt(root any, p []any, nv any) any {
 	return root
 }
 
-
 func newDoc(id string, data any) *bkl.Document {
 	return bkl.NewDocumentWithData(id, core.Clone(data))
 }
